@@ -325,15 +325,41 @@ Section Call.
     | None => ev recheck clear_on_set k true [] e st1
     end.
 
+  (* evaluation does not write into the syntax tree it evaluates, except the `_compiled` memo
+     (Generated.eval_does_not_write_nodes).  If it did — e.g. by storing evaluated operands back into a node, as a projection
+     that freezes its arguments — the cached tree of the text would from then on carry the values of the first evaluation:
+     `freeze` replaces the variables by the values they had. *)
+  Variable stable : bool.
+
+  Fixpoint freeze (s : store) (e : expr) : expr :=
+    match e with
+    | EVar n => match slookup n s with Some v => ELit v | None => e end
+    | EBin o a b => EBin o (freeze s a) (freeze s b)
+    | ESize a => ESize (freeze s a)
+    | ERed a => ERed (freeze s a)
+    | EDef n e1 => EDef n (freeze s e1)
+    | ELit _ => e
+    end.
+
+  Fixpoint preplace (k : ckey) (e : expr) (m : list (ckey * expr)) : list (ckey * expr) :=
+    match m with
+    | [] => []
+    | (k', e') :: r => if ckey_eqb k k' then (k', e) :: r else (k', e') :: preplace k e r
+    end.
+
   (* KlongInterpreter.__call__ *)
   Definition run_cached (st : istate) (t : text) : res * istate :=
     let k := key_of st t in
-    match plookup k (pcache st) with
-    | Some e => run_tree k e st
-    | None => let (e, m') := parse t (cur st) in
-              let pc := if skip_sw && negb (m' =? cur st) then pcache st else (k, e) :: pcache st in
-              run_tree k e (mk_istate (vars st) m' pc (ccache st) (memo st))
-    end.
+    let (e, st0) :=
+      match plookup k (pcache st) with
+      | Some e => (e, st)
+      | None => let (e, m') := parse t (cur st) in
+                let pc := if skip_sw && negb (m' =? cur st) then pcache st else (k, e) :: pcache st in
+                (e, mk_istate (vars st) m' pc (ccache st) (memo st))
+      end in
+    if stable then run_tree k e st0
+    else let (r, st1) := run_tree k e st0 in
+         (r, mk_istate (vars st1) (cur st1) (preplace k (freeze (vars st) e) (pcache st1)) (ccache st1) (memo st1)).
 
   Fixpoint state_after (st : istate) (h : list text) : istate :=
     match h with
